@@ -57,7 +57,8 @@ Record oper := mkOper {
   o_jailed : bool;
   o_has_usd : bool;      (* a USD value record exists *)
   o_active : Z;          (* ActiveUSDValue, LegacyDec raw (scaled by 10^18) *)
-  o_total : Z            (* TotalUSDValue *)
+  o_total : Z;           (* TotalUSDValue *)
+  o_self : Z             (* SelfUSDValue *)
 }.
 
 (* IsActive *)
@@ -237,7 +238,12 @@ Fixpoint strictly_sorted (l : list kv) : bool :=
 (* ---- correspondence cases (written by the harness) ---- *)
 Record step := mkStep {
   s_epoch_ended : bool;  (* the dogfood epoch number advanced in this block's BeginBlock (read from x/epochs) *)
-  s_marker : bool;       (* the marker as EndBlock finds it *) s_max : Z; s_prev : list kv; s_prev_total : Z; s_opers : list oper; s_norev : list key;
+  s_marker : bool;       (* the marker as EndBlock finds it *) s_max : Z;
+  s_min_self : Z;        (* dogfood params.MinSelfDelegation at EndBlock *)
+  s_avs_min_self : Z;    (* MinSelfDelegation of the dogfood AVS record, which the operator module's epoch hook reads *)
+  s_hook_min : Z;        (* dogfood params.MinSelfDelegation when this block's epoch hook ran (-1: none) *)
+  s_fresh : bool;        (* the USD value records are as the operator module's epoch hook of this block left them *)
+  s_prev : list kv; s_prev_total : Z; s_opers : list oper; s_norev : list key;
   s_panicked : bool;
   s_cmt : Z;   (* what the REAL CometBFT ValidatorSet.UpdateWithChangeSet(prev, updates) answered: 0 accepted, 1 refused because the
                   set would become empty, 2 refused for another reason (duplicate, unknown removal, negative, ...) *)
@@ -294,9 +300,23 @@ Definition eligible_opers (os : list oper) : list cand :=
                          then [mkCand (o_addr o) k (dec_trunc_int (o_active o))] else []
                      end) os.
 
+(* eligibility derived from the CONFIGURED minimum self delegation instead of the stored active value: the operator
+   module's epoch hook sets active := total when self >= minimum (whole USD) and 0 otherwise *)
+Definition cfg_active (minself : Z) (o : oper) : Z := if minself * P <=? o_self o then o_total o else 0.
+Definition eligible_cfg (minself : Z) (os : list oper) : list cand :=
+  flat_map (fun o => match o_key o with
+                     | None => []
+                     | Some k =>
+                         if o_has_opt o && o_opted_in o && negb (o_jailed o) && o_has_usd o
+                            && (1 <=? dec_trunc_int (cfg_active minself o))
+                         then [mkCand (o_addr o) k (dec_trunc_int (cfg_active minself o))] else []
+                     end) os.
+Definition usd_consistent (minself : Z) (o : oper) : bool := o_active o =? cfg_active minself o.
+
 Definition monitor_step (s : step) : bool :=
   if s_panicked s then true (* nothing was handed to consensus; a halted chain is C11's subject *)
   else if negb (s_cmt s =? cmt_code (s_prev s) (s_upd s)) then false   (* real CometBFT and its transcription disagree *)
+  else if negb (s_min_self s =? s_avs_min_self s) then false  (* the AVS record the hook reads lags behind the configured params *)
   else if negb (s_epoch_ended s) then
     (* every block that does not close a dogfood epoch: empty list, nothing changes *)
     list_eqb kv_eqb (s_upd s) [] && list_eqb kv_eqb (s_stored_upd s) []
@@ -308,6 +328,8 @@ Definition monitor_step (s : step) : bool :=
     | Some got =>
         nodupb (map fst (s_prev s))
         && same_map got want                                     (* previous set + updates = eligible top set *)
+        && (negb (s_fresh s) ||                                  (* ... also with eligibility from the configured minimum *)
+            same_map got (target (Z.to_nat (s_max s)) (eligible_cfg (s_hook_min s) (s_opers s))))
         && forallb (fun e => negb (snd e =? 0) || match kv_get (s_prev s) (fst e) with Some _ => true | None => false end) (s_upd s)
         && strictly_sorted (s_upd s)                             (* canonical order, no key twice *)
         && same_map (s_after s) got                              (* stored set = what consensus has *)
